@@ -3,6 +3,10 @@ import Mimium.Proofs.FlatTreeTop
 import Mimium.Proofs.FlatTreeLabel
 import Mimium.Proofs.FlatTreeEval
 import Mimium.Proofs.FlatTreeVisits
+import Mimium.Proofs.PublishOk
+import Mimium.Proofs.PublishPrune
+import Mimium.Proofs.PublishMono
+import Mimium.Proofs.PublishZ
 /-!
 # C05 — compile-time state layout matches run-time state accesses
 
@@ -46,10 +50,25 @@ layout with distinct sibling sites, every conforming tree, every operand payload
   computes; `C05_eval_instance_is_flat_call`: hence one sample of a function instance in the reference semantics (zero-init
   of `self`, body, store the returned value) and the state instructions of the call on the flat storage commute with
   `serialize` — the flat machine simulates the evaluator's state, access sequence `expectedTrace`, in bounds.
-NOT proved: that mirgen publishes, for each function, the cells its body visits in evaluation order (`Visits` / `Covers` are
-hypotheses relating a program to its published layout; mirgen is judged on the recorded traces by `conforms`; state inside
-`if` arms — finding F3 — violates `Visits` on the pinned tree), and that returned values have the word count of their `Feed`
-cell (`NPayOk`, a typing fact; soundness of the type checker is not proved, see C03).
+## the published layout, computed (third part, namespace `Mimium.Publish`)
+
+`Model/Publish.lean` defines what mirgen publishes for a function (`publishFn`, a port of how `eval_expr` accumulates
+`state_skeleton`; compared with the real compiler's `dsp` skeleton on every generated program by the correspondence stage),
+and the `Visits` / `Covers` / `LNode.Ok` hypotheses above are PROVED for it: `C05_publish_visits`, `C05_publishFn_visits`,
+`C05_publish_ok`, `C05_published_skeleton_same_meaning`, `C05_publish_depth_irrelevant`, and the corollaries
+`C05_published_instance_is_flat_call`, `C05_published_same_words_same_eval_future`, `C05_published_eval_respects_agreement`,
+`C05_published_state_effect_is_tree_ops`, whose only program-side hypotheses are decidable syntactic class predicates
+(`noStateInArmsN`: no cell — stateful construct or named call — inside an `if` arm, in the function and its callees;
+`SitesUnique` / `SitesOk`: sites of one body distinct, ring lengths < 2^64) and `publishFnN n P d = some lay` (callees
+defined, no recursion).  `C05_published_instance_is_flat_call_stateless_arms` proves the main corollary for the WIDER class
+`noStatefulInArmsN` (calls of functions without state allowed inside `if` arms — everything outside finding F3's class; the
+reference semantics creates a stateless child node only when the arm runs, so the statement is about flat images instead
+of trees; `C05_wider_class`: the narrow class is contained).  Outside the class the layout is not visited in order:
+`C05_state_in_arms_not_visited` (finding F3 at model level).
+NOT proved: that the Rust `mirgen` computes `publishFn` (corresponded, not proved); the agreement corollaries
+(`…_same_words_same_eval_future`, `…_eval_respects_agreement`, `…_state_effect_is_tree_ops`) are proved for the narrow class
+only (their `Covers` / tree-equality statements exclude call sites without a cell); and that returned values have the word
+count of their `Feed` cell (`NPayOk`, a typing fact; soundness of the type checker is not proved, see C03).
 -/
 namespace Mimium.Layout
 open Mimium.StateTree
@@ -399,3 +418,246 @@ example :
   exact ⟨hw, hf, hs, (C05_serialize_deserialize _ _ hsk.2 (by rw [LNode.sk_size, hs]; rfl)).2.1⟩
 
 end Mimium.FlatTree
+
+namespace Mimium.Publish
+open Mimium.Core Mimium.Cells Mimium.StateTree Mimium.Layout Mimium.StateMachine Mimium.FlatTree
+
+/-! ## the published layout, computed (third part of this file, namespace `Mimium.Publish`)
+
+`Model/Publish.lean` defines IN LEAN what mirgen publishes for a function: `publishFnN n P d` (`publishFn` = depth
+`|P.fns|`) — the labelled layout built the way `eval_expr` builds `state_skeleton` (operands before the operation,
+arguments left to right, the callee's layout as a child, `self` as the leading `Feed`, nothing for a lambda, the LARGER arm
+of an `if`) — and `publishedSk lay`, the bare skeleton (`emit_fncall` publishes nothing for a callee without state).  The
+correspondence stage compares `publishedSk (publishFn P dsp)` with the skeleton of the real compiler for every generated
+program.  The theorems below discharge the hypotheses `Visits` / `Covers` / `LNode.Ok` of the evaluator-level theorems
+above for that layout, for EVERY program, function, call depth `n`: what remains are syntactic, decidable class predicates
+* `noStateInArmsN n P body` — no cell is published for an arm of an `if`, in the body and in every function it
+  transitively calls (outside this class mirgen's layout is NOT visited in order: finding F3);
+* `SitesUnique P`, `SitesOk body` — the stateful sites of one function body are pairwise distinct, ring lengths < 2^64;
+and `publishFnN n P d = some lay` (every called function exists and the call graph below `d` is acyclic within depth `n`). -/
+
+/-- **the published layout is visited.**  For every program, expression and call depth: if no cell is published for an
+`if` arm (here and in the callees), the evaluation of `e` visits exactly the cells `pubE` publishes for it, in that
+order, once each (`Visits`), and hence every stateful construct of `e` owns a cell of its kind in them (`Covers`) -/
+theorem C05_publish_visits (n : Nat) (P : Prog) (e : Expr) (seg : List LCell)
+    (harms : noStateInArmsN n P e = true) (hpub : publishEN n P e = some seg) :
+    Visits P e seg ∧ Covers P seg e :=
+  have hv := publishEN_visits n P e seg harms hpub
+  ⟨hv, visits_covers P hv seg (fun _ h => h)⟩
+
+/-- the same for a function: its layout is `self` shape + the cells its body visits -/
+theorem C05_publishFn_visits (n : Nat) (P : Prog) (d : FnDecl) (lay : LNode)
+    (harms : noStateInArmsN n P d.body = true) (hpub : publishFnN n P d = some lay) :
+    lay.self = d.selfShape ∧ Visits P d.body lay.cells ∧ Covers P lay.cells d.body :=
+  have hi := publishFnN_inv hpub
+  ⟨hi.1, C05_publish_visits n P d.body lay.cells harms hi.2⟩
+
+/-- `Visits` is the stronger discipline: whatever is visited is covered (so `Covers` never was an independent hypothesis) -/
+theorem C05_visits_covers (P : Prog) (e : Expr) (seg cells : List LCell) (h : Visits P e seg)
+    (hsub : ∀ c ∈ seg, c ∈ cells) : Covers P cells e := visits_covers P h cells hsub
+
+/-- **the published layout is well formed.**  Sibling cells have distinct sites and ring lengths fit a word
+(`LNode.Ok`) when the stateful sites of every function body are pairwise distinct and ring lengths are < 2^64 -/
+theorem C05_publish_ok (n : Nat) (P : Prog) (d : FnDecl) (lay : LNode)
+    (hs : SitesUnique P) (hd : SitesOk d.body) (hpub : publishFnN n P d = some lay) : lay.Ok :=
+  publishEN_ok n P d.body lay.cells hs hd (publishFnN_inv hpub).2
+
+/-- **the bare skeleton means the same.**  Dropping the zero-sized children of calls of stateless functions (what
+`emit_fncall` does) keeps the skeleton well formed, keeps its total size (the storage `execute_idx` allocates) and the
+access sequence it prescribes, at every base address -/
+theorem C05_published_skeleton_same_meaning (lay : LNode) :
+    WF (publishedSk lay) = true ∧ (publishedSk lay).size = lay.sk.size ∧
+    ∀ b, expectedTrace (publishedSk lay) b = expectedTrace lay.sk b := publishedSk_spec lay
+
+/-- **one sample of any function instance: reference evaluator = flat machine at the published offsets.**
+For every program `P`, function `d` (of `P` or not), call depth `n` with `publishFnN n P d = some lay`, in the class
+(no cell published for an `if` arm, sites unique): one sample of an instance of `d` in the reference semantics (`self`
+zero-initialised if absent, body evaluated against the instance's tree `st`, returned value stored as the new `self`) and the
+state instructions of the call, run on the flat image `serialize lay st` of the tree anywhere in a larger storage, commute
+with `serialize`; the accesses are exactly those the PUBLISHED skeleton prescribes at that base, every one inside the
+region of `total_size` words, the cursor returns, the rest of the storage is untouched, and the next tree conforms again.
+No `Visits` / `Covers` / `LNode.Ok` hypothesis is left.  (`NPayOk`: returned values have the word count of their `Feed`
+cell — a typing fact; the soundness of the type checker is not proved, see C03.) -/
+theorem C05_published_instance_is_flat_call (fuel n : Nat) (P : Prog) (d : FnDecl) (lay : LNode)
+    (rt : Rt) (env : Env) (σ : Store) (st : SNode) (v : Val) (σ' : Store) (st1 : SNode)
+    (hpub : publishFnN n P d = some lay)
+    (harms : noStateInArmsN n P d.body = true) (hs : SitesUnique P) (hd : SitesOk d.body)
+    (hc : Conforms lay st)
+    (h : eval fuel P rt env d.body σ (initSelf d.selfShape st) = .ok (v, σ', st1)) :
+    ∃ ps, PayShapeL lay.cells ps ∧ finSelf d.selfShape st1 v = (treeNode lay ⟨v, ps⟩ st).1 ∧
+      (NPayOk lay ⟨v, ps⟩ → ∀ pre post : List UInt64,
+        vmRun ⟨pre.length, pre ++ serialize lay st ++ post⟩ (flatNode lay ⟨v, ps⟩) =
+          some (⟨pre.length, pre ++ serialize lay (finSelf d.selfShape st1 v) ++ post⟩, (treeNode lay ⟨v, ps⟩ st).2) ∧
+        accessesOf pre.length (flatNode lay ⟨v, ps⟩) = expectedTrace (publishedSk lay) pre.length ∧
+        (∀ a ∈ expectedTrace (publishedSk lay) pre.length,
+          pre.length ≤ a.pos ∧ a.pos + a.size ≤ pre.length + (publishedSk lay).size) ∧
+        (serialize lay st).length = (publishedSk lay).size ∧
+        Conforms lay (finSelf d.selfShape st1 v)) := by
+  obtain ⟨hself, hvis, _⟩ := C05_publishFn_visits n P d lay harms hpub
+  have hl := C05_publish_ok n P d lay hs hd hpub
+  rw [← hself] at h ⊢
+  obtain ⟨ps, hp, he, hrest⟩ := C05_eval_instance_is_flat_call fuel P rt env σ lay d.body st v σ' st1 hl hc hvis h
+  obtain ⟨hwf, hsz, htr⟩ := publishedSk_spec lay
+  refine ⟨ps, hp, he, fun hpay pre post => ?_⟩
+  obtain ⟨hrun, hacc, hconf⟩ := hrest hpay pre post
+  refine ⟨hrun, by rw [htr]; exact hacc, ?_, by rw [hsz]; exact C05_serialize_size lay st hc, hconf⟩
+  exact C05_expected_in_bounds (publishedSk lay) pre.length hwf
+
+/-- the published storage loses nothing the evaluator can see: what an instance of `d` returns, sample after sample,
+depends only on its flat state words laid out by the published layout (`Covers` discharged) -/
+theorem C05_published_same_words_same_eval_future (fuel n : Nat) (P : Prog) (d : FnDecl) (lay : LNode)
+    (samples : List (Rt × Env × Store)) (a b : SNode)
+    (hpub : publishFnN n P d = some lay)
+    (harms : noStateInArmsN n P d.body = true) (hs : SitesUnique P) (hd : SitesOk d.body)
+    (ha : ConformsS lay a) (hb : ConformsS lay b) (h : serialize lay a = serialize lay b) :
+    instRun fuel P d.selfShape d.body samples a = instRun fuel P d.selfShape d.body samples b := by
+  obtain ⟨hself, _, hcov⟩ := C05_publishFn_visits n P d lay harms hpub
+  rw [← hself]
+  exact C05_same_words_same_eval_future fuel P lay d.body samples a b (C05_publish_ok n P d lay hs hd hpub) hcov ha hb h
+
+/-- `C05_eval_respects_agreement` for the published layout of a function (hypotheses `LayOkL`, `Covers` discharged) -/
+theorem C05_published_eval_respects_agreement (n : Nat) (P : Prog) (d : FnDecl) (lay : LNode) (rt : Rt) (fuel : Nat)
+    (env : Env) (σ : Store) (st₁ st₂ : SNode)
+    (hpub : publishFnN n P d = some lay)
+    (harms : noStateInArmsN n P d.body = true) (hs : SitesUnique P) (hd : SitesOk d.body)
+    (hag : AgreeN lay.cells st₁ st₂) :
+    SRel (RE lay.cells) (eval fuel P rt env d.body σ st₁) (eval fuel P rt env d.body σ st₂) :=
+  C05_eval_respects_agreement P rt fuel d.body lay.cells env σ st₁ st₂ (C05_publish_ok n P d lay hs hd hpub)
+    (C05_publishFn_visits n P d lay harms hpub).2.2 hag
+
+/-- `C05_eval_state_effect_is_tree_ops` for the cells published for ANY expression (hypothesis `Visits` discharged):
+a successful evaluation changes the state tree exactly as the per-site tree operations of the published cells do -/
+theorem C05_published_state_effect_is_tree_ops (n : Nat) (P : Prog) (rt : Rt) (fuel : Nat) (e : Expr) (seg : List LCell)
+    (env : Env) (σ : Store) (st : SNode) (v : Val) (σ' : Store) (st' : SNode)
+    (hpub : publishEN n P e = some seg) (harms : noStateInArmsN n P e = true)
+    (h : eval fuel P rt env e σ st = .ok (v, σ', st')) :
+    ∃ ps, PayShapeL seg ps ∧ st' = (treeCells seg ps st).1 :=
+  C05_eval_state_effect_is_tree_ops P rt fuel e seg env σ st v σ' st' (C05_publish_visits n P e seg harms hpub).1 h
+
+/-- the wider class contains the narrow one -/
+theorem C05_wider_class (n : Nat) (P : Prog) (e : Expr) (h : noStateInArmsN n P e = true) :
+    noStatefulInArmsN n P e = true := noStatefulInArmsN_of_noStateInArmsN n P e h
+
+/-- **the same for the wider class: calls of functions WITHOUT state inside `if` arms allowed** (the class of the
+generator's `avoid_f3` profiles: no `mem`, `delay` or call of a function with state inside an `if` arm, here and in the
+callees).  The reference semantics creates a (stateless) child node at such a call site only when its arm runs, so the
+tree after the sample and the tree `treeNode` computes may differ at sites the layout does not own; their FLAT IMAGES are
+equal, which is all the flat machine sees: one sample of any function instance in the reference semantics and the state
+instructions of the call on the flat storage laid out by the published layout commute with `serialize`; accesses exactly
+those the published skeleton prescribes, in bounds, cursor restored, next tree conforming again.  (Proof: frame property of
+`eval` — an expression changes the state node only at its own sites —, the per-site tree operations respect agreement on
+the layout's cells, visiting stateless cells is the identity up to that agreement; induction on the fuel over all 18
+constructs.) -/
+theorem C05_published_instance_is_flat_call_stateless_arms (fuel n : Nat) (P : Prog) (d : FnDecl) (lay : LNode)
+    (rt : Rt) (env : Env) (σ : Store) (st : SNode) (v : Val) (σ' : Store) (st1 : SNode)
+    (hpub : publishFnN n P d = some lay)
+    (harms : noStatefulInArmsN n P d.body = true) (hs : SitesUnique P) (hd : SitesOk d.body)
+    (hc : Conforms lay st)
+    (h : eval fuel P rt env d.body σ (initSelf d.selfShape st) = .ok (v, σ', st1)) :
+    ∃ ps, PayShapeL lay.cells ps ∧
+      serialize lay (finSelf d.selfShape st1 v) = serialize lay (treeNode lay ⟨v, ps⟩ st).1 ∧
+      (NPayOk lay ⟨v, ps⟩ → ∀ pre post : List UInt64,
+        vmRun ⟨pre.length, pre ++ serialize lay st ++ post⟩ (flatNode lay ⟨v, ps⟩) =
+          some (⟨pre.length, pre ++ serialize lay (finSelf d.selfShape st1 v) ++ post⟩, (treeNode lay ⟨v, ps⟩ st).2) ∧
+        accessesOf pre.length (flatNode lay ⟨v, ps⟩) = expectedTrace (publishedSk lay) pre.length ∧
+        (∀ a ∈ expectedTrace (publishedSk lay) pre.length,
+          pre.length ≤ a.pos ∧ a.pos + a.size ≤ pre.length + (publishedSk lay).size) ∧
+        (serialize lay st).length = (publishedSk lay).size ∧
+        Conforms lay (finSelf d.selfShape st1 v)) := by
+  obtain ⟨hself, hcells⟩ := publishFnN_inv hpub
+  obtain ⟨hvis, hjunk⟩ := publishEN_visitsZ n P d.body lay.cells hs hd harms hcells
+  have hl := C05_publish_ok n P d lay hs hd hpub
+  rw [← hself] at h ⊢
+  obtain ⟨ps, hp, hsame⟩ := (eval_visitsZ P rt fuel).1 d.body lay.cells _ lay.cells env σ _ v σ' st1 hl (fun _ hm => hm)
+    hjunk hvis h
+  have hsame' : SameN lay.cells (finSelf lay.self st1 v) (treeNode lay ⟨v, ps⟩ st).1 := by
+    have := same_finSelf lay.self lay.cells _ _ v hsame
+    simpa [treeNode, treeNodeWith_fst] using this
+  have hser := serialize_same lay _ _ hsame'
+  obtain ⟨hwf, hsz, htr⟩ := publishedSk_spec lay
+  refine ⟨ps, hp, hser, fun hpay pre post => ?_⟩
+  obtain ⟨hacc, _, hrun, hconf⟩ := C05_flat_eq_tree lay ⟨v, ps⟩ st pre post hl hc hpay
+  refine ⟨by rw [hser]; exact hrun, by rw [htr]; exact hacc, C05_expected_in_bounds (publishedSk lay) pre.length hwf,
+    by rw [hsz]; exact C05_serialize_size lay st hc, conforms_same lay _ _ hsame'.symm hconf⟩
+
+/-- `publishFn` / `publishE` / `noStateInArms` are the instances at depth `|P.fns|` -/
+theorem C05_publishFn_is_depth_instance (P : Prog) (d : FnDecl) (e : Expr) :
+    publishFn P d = publishFnN P.fns.length P d ∧ publishE P e = publishEN P.fns.length P e ∧
+    noStateInArms P e = noStateInArmsN P.fns.length P e ∧
+    noStatefulInArms P e = noStatefulInArmsN P.fns.length P e := ⟨rfl, rfl, rfl, rfl⟩
+
+/-- **the call depth is irrelevant once it suffices**: a layout computed at depth `n` is the layout at every depth
+`m ≥ n`, and membership in the class persists (so the theorems above, stated for every `n`, speak about one layout) -/
+theorem C05_publish_depth_irrelevant (P : Prog) (n m : Nat) (hnm : n ≤ m) :
+    (∀ d lay, publishFnN n P d = some lay → publishFnN m P d = some lay) ∧
+    (∀ e seg, publishEN n P e = some seg → publishEN m P e = some seg) ∧
+    (∀ e, noStateInArmsN n P e = true → noStateInArmsN m P e = true) ∧
+    (∀ e, noStatefulInArmsN n P e = true → noStatefulInArmsN m P e = true) :=
+  have h := publish_depth_mono P n m hnm
+  ⟨h.1, h.2.1, h.2.2, noStatefulInArmsN_mono P n m hnm⟩
+
+/-! non-vacuity of the five theorems above.  `f(y) = mem(y)`, `g(y) = y*2` (no state), `c() = self + g(1)` and
+`dsp(x) = self + mem(x) + f(delay(3, x, 1)) + g(c()) + (if x then (|q| mem(q))(1) else 2)` with a one-word tuple `self`:
+the published labelled layout has a mem, a delay, a child with a mem, a child with `self` and a zero-sized grandchild (the
+call of `g`), and a zero-sized child (the call of `g`); the bare skeleton drops the two zero-sized ones; the lambda's `mem`
+is not published here; the program is in the class -/
+example :
+    let fF : FnDecl := ⟨"f", ["y"], .mem (.var "y") 0, none⟩
+    let gF : FnDecl := ⟨"g", ["y"], .bin .mul (.var "y") (.lit 2), none⟩
+    let cF : FnDecl := ⟨"c", [], .bin .add .self (.call "g" [.lit 1] 0), some .num⟩
+    let dspF : FnDecl := ⟨"dsp", ["x"],
+      .bin .add .self (.bin .add (.mem (.var "x") 0)
+        (.bin .add (.call "f" [.delay 3 (.var "x") (.lit 1) 1] 2)
+          (.bin .add (.call "g" [.call "c" [] 3] 4)
+            (.ite (.var "x") (.app (.lam ["q"] (.mem (.var "q") 7)) [.lit 1]) (.lit 2))))), some (.tup [.num])⟩
+    let P : Prog := ⟨[], [fF, gF, cF], dspF⟩
+    let lay : LNode := ⟨some (.tup [.num]),
+      [.mem 0, .delay 1 3, .child 2 none [.mem 0], .child 3 (some .num) [.child 0 none []], .child 4 none []]⟩
+    publishFn P dspF = some lay ∧ noStateInArms P dspF.body = true ∧ SitesUnique P ∧ SitesOk dspF.body ∧
+    publishedSk lay = .fn [.feed 1, .mem 1, .delay 3, .fn [.mem 1], .fn [.feed 1]] ∧
+    lay.sk = .fn [.feed 1, .mem 1, .delay 3, .fn [.mem 1], .fn [.feed 1, .fn []], .fn []] := by
+  intro fF gF cF dspF P lay
+  refine ⟨rfl, rfl, ?_, ?_, rfl, rfl⟩
+  · intro d hd
+    simp only [P, List.mem_cons, List.not_mem_nil, or_false] at hd
+    rcases hd with rfl | rfl | rfl <;> simp [SitesOk, siteLens, siteLensL, fF, gF, cF]
+  · simp [SitesOk, siteLens, siteLensL, dspF]
+
+/-! non-vacuity of `C05_published_instance_is_flat_call_stateless_arms`: `g(y) = y*2`, `h(y) = if y then g(y) else 3`,
+`dsp(x) = mem(x) + (if x then h(x) else g(1) + g(2))`: outside the narrow class, inside the wide one; the labelled layout
+lists the (zero-sized) cells of the `then` arm only, the bare skeleton is `F[M1]` -/
+example :
+    let gF : FnDecl := ⟨"g", ["y"], .bin .mul (.var "y") (.lit 2), none⟩
+    let hF : FnDecl := ⟨"h", ["y"], .ite (.var "y") (.call "g" [.var "y"] 0) (.lit 3), none⟩
+    let dspF : FnDecl := ⟨"dsp", ["x"],
+      .bin .add (.mem (.var "x") 0)
+        (.ite (.var "x") (.call "h" [.var "x"] 1) (.bin .add (.call "g" [.lit 1] 2) (.call "g" [.lit 2] 3))), none⟩
+    let P : Prog := ⟨[], [gF, hF], dspF⟩
+    let lay : LNode := ⟨none, [.mem 0, .child 1 none [.child 0 none []]]⟩
+    publishFn P dspF = some lay ∧ noStateInArms P dspF.body = false ∧ noStatefulInArms P dspF.body = true ∧
+    SitesUnique P ∧ SitesOk dspF.body ∧ publishedSk lay = .fn [.mem 1] := by
+  intro gF hF dspF P lay
+  refine ⟨rfl, rfl, rfl, ?_, ?_, rfl⟩
+  · intro d hd
+    simp only [P, List.mem_cons, List.not_mem_nil, or_false] at hd
+    rcases hd with rfl | rfl <;> simp [SitesOk, siteLens, siteLensL, gF, hF]
+  · simp [SitesOk, siteLens, siteLensL, dspF]
+
+/-- **outside the class the layout is not visited (finding F3, model level).**  `counter() = self + 1`,
+`dsp() = if (now > 2) counter() else counter()*100`: mirgen publishes ONE child (the `then` arm's, the sizes tie), the
+class predicate is false, and no layout whatsoever is visited in order by this body — the reference semantics keeps
+two instances of `counter` (one per call site), the published storage has room for one -/
+theorem C05_state_in_arms_not_visited :
+    let counterF : FnDecl := ⟨"counter", [], .bin .add .self (.lit 1), some .num⟩
+    let dsp : FnDecl := ⟨"dsp", [],
+      .ite (.bin .gt .now (.lit 2)) (.call "counter" [] 1) (.bin .mul (.call "counter" [] 2) (.lit 100)), none⟩
+    let P : Prog := ⟨[], [counterF], dsp⟩
+    publishFn P dsp = some ⟨none, [.child 1 (some .num) []]⟩ ∧ noStateInArms P dsp.body = false ∧
+    ∀ seg, ¬ Visits P dsp.body seg := by
+  intro counterF dsp P
+  refine ⟨rfl, rfl, ?_⟩
+  intro seg h
+  cases h with
+  | ite _ ha _ => exact visits_call_ne_nil ha
+
+end Mimium.Publish
